@@ -649,7 +649,7 @@ def run(tier: str, seed: int, replay: str | None = None) -> int:
             continue
         try:
             c["coq_emb"] = coq_emb(c)
-        except (ValueError, E.NonAscii, SyntaxError) as e:
+        except (ValueError, AttributeError, TypeError, E.NonAscii, SyntaxError) as e:
             chk.notes.append(f"context {c['cls']} of {c['fid']} could not be expressed in the algebra: {e}")
             continue
         k = seen_alg.get(c["cls"], 0)
@@ -693,6 +693,8 @@ def run(tier: str, seed: int, replay: str | None = None) -> int:
                 if bad is not None:
                     key = f"{ex['linter']}|{fid}|Isolated"
                     case = {"reason": bad, "fragment": _frag_payload(fr), "context_class": "Isolated", "key": key}
+                    if key in chk.known["fixed"]:
+                        case["reason"] = f"finding {key} is recorded as fixed but was observed again: " + case["reason"]
                     if key in chk.known["known"] or key in chk.known["fixed"]:
                         chk.known_finding(key, case)
                     else:
@@ -784,7 +786,9 @@ def run(tier: str, seed: int, replay: str | None = None) -> int:
             else:
                 linter = ex["linter"] if rule.startswith(ex["rule_prefix"]) else rule.split(".")[0]
                 key = f"{linter}|{c['fid']}|{c['cls']}"
-                if key in chk.known["known"] or key in chk.known["fixed"]:
+                if key in chk.known["fixed"]:
+                    chk.known_finding(key, {**payload, "key": key, "reason": f"finding {key} is recorded as fixed but was observed again: " + payload["reason"]})
+                elif key in chk.known["known"]:
                     chk.known_finding(key, {**payload, "key": key})
                 else:
                     chk.violation({**payload, "key": key, "rule": rule})
